@@ -1,6 +1,7 @@
 """C13 (bounded): truncated SVD keeps exactly what its cutoff and bond limit prescribe.
 
-One case = (matrix, cutoff mode); inside, every bond limit in {-1, 1, .., total+2} is
+One case = (matrix, cutoff mode); inside, every bond limit in {-1, 1, .., total+2}
+(thinned to {1, 2, 3, n/2, n-1, n, n+1, n+2} for more than 6 singular values) is
 combined with every cutoff of a mode-specific list (absolute tiny / huge, just below /
 at / just above individual singular values resp. cumulative weights, around and beyond
 the total weight, and `no cutoff` -1 / 0.0) and every absorb option.  The kept-set
@@ -35,7 +36,7 @@ CONTRACTS = {
         "2-D abelian and fermionic arrays (all symmetries, directions, charges, sparsity, rank-deficient, fused from rank 3/4, "
         "pending signs, float64/complex128) incl. exactly degenerate spectra (equal / identity / integer-diagonal blocks in several sectors); "
         "cutoff_mode 1..6 x cutoffs {1e-12, 0.125, 0.5, below/at/above each of <=4 singular values resp. cumulative weights, "
-        "(1-1e-7, 1, 1+1e-7, 1.5) x total weight, 1e6, -1, 0.0} x max_bond {-1, 1..total+2} x absorb {-1, 0, 1, None}",
+        "(1-1e-7, 1, 1+1e-7, 1.5) x total weight, 1e6, -1, 0.0} x max_bond {-1, 1..total+2 (thinned above 6 values)} x absorb {-1, 0, 1, None}",
         "systematic small scope (thinned) + degenerate family + seeded random; one evaluation = one (matrix, mode) with all "
         "cutoffs x bond limits x absorbs inside; tol 1e-9",
     ),
@@ -53,11 +54,11 @@ def gen_cases(tier, seed):
             continue
         for mode in range(1, 7):
             yield {"contract": "C13.svd_truncated", "m": m, "mode": mode}
-    for m in systematic_matrices(stride=16 if quick else 2):
+    for m in systematic_matrices(stride=20 if quick else 2):
         for mode in range(1, 7):
             yield {"contract": "C13.svd_truncated", "m": m, "mode": mode}
     rng = np.random.default_rng([13, 1, seed])
-    for i in range(160 if quick else 12000):
+    for i in range(120 if quick else 9000):
         m = random_matrix(rng, degenerate=0.3)
         for mode in range(1, 7):
             yield {"contract": "C13.svd_truncated", "m": m, "mode": mode}
